@@ -133,6 +133,7 @@ fn main() {
             let file = arg(&args, "--sched", "sched.ndjson");
             let cfgv: Value = serde_json::from_str(&arg(&args, "--cfg", "{}")).expect("cfg json");
             let cfg = Cfg::from_json(&cfgv);
+            let tick: u64 = arg(&args, "--tick", "1").parse().unwrap();
             let mut pf = BufWriter::new(File::create(format!("{}/pred.ndjson", out)).unwrap());
             let f = BufReader::new(File::open(&file).expect("sched file"));
             let kind_of = |t: u64| -> &'static str { match t { 32802 => "software", 6 => "username", 36 => "priority", 8 => "mi", 28 => "sha", 32808 => "fp", _ => "data" } };
@@ -145,7 +146,7 @@ fn main() {
                 let mut preds = Vec::new();
                 for h in sched.as_array().cloned().unwrap_or_default() {
                     let st = &h["st"];
-                    let at = TimeSpec::Dt(st["dt"].as_u64().unwrap_or(0));
+                    let at = TimeSpec::Dt(st["dt"].as_u64().unwrap_or(0) * tick);
                     let app: Vec<String> = st["app"].as_array().map(|a| a.iter().map(|t| kind_of(t.as_u64().unwrap_or(0)).to_string()).collect()).unwrap_or_default();
                     let step = match st["a"].as_str().unwrap_or("") {
                         "send" => Step::Send { at, method: 1, app, buf: 1024 },
